@@ -169,6 +169,10 @@ class StochasticSearcher(BaseSearcher):
                 for pos, config in enumerate(restrict_configurations)
                 if pos not in remove_rc
             ]
+        else:
+            # Entries are removed from this list as they are suggested: must
+            # not be the list owned by the caller
+            restrict_configurations = restrict_configurations.copy()
         return restrict_configurations
 
 
